@@ -8,7 +8,8 @@ tie: Gen_Log.v regenerated from the source (format strings, literals, prefixes, 
 of read() and of Driver.open / AsyncDriver.open, call sites of transport.read) + correspondence of model/LogHandler.v,
 LogFormat.v, ChanLog.v against the real handlers / formatter / channels / drivers on the same generated record sequences,
 read sequences, whole sessions and commandeered sessions (c20_driver.py), re-open histories on one driver object (c20_reopen.py),
-mode spellings x previous file content (log-mode), several handler instances in one process."""
+mode spellings x previous file content (log-mode), several handler instances in one process, whole logged sessions with hostile
+input text (%, %s, %d, %%, %(name)s, braces, backslashes) in every operation kind, logging.raiseExceptions on and off (c20_inputs.py)."""
 import ast
 import asyncio
 import io
@@ -20,7 +21,7 @@ import shutil
 import sys
 import weakref
 
-from . import c20_driver, c20_reopen, common
+from . import c20_driver, c20_inputs, c20_reopen, common
 from .common import coq_bool, coq_list
 
 LEVEL = "proof"
@@ -86,7 +87,7 @@ def copt(s):
 def rec_term(rd, asctime):
     args = []
     for k, v in rd["args"]:
-        args.append("ABytes %s" % cbytes(bytes.fromhex(v)) if k == "b" else "AStr %s" % cps(v))
+        args.append("ABytes %s" % cbytes(bytes.fromhex(v)) if k == "b" else "AStr %s" % cps(v))      # k: "s" str, "o" text of a non-str object (see _Capture)
     ex = rd["extra"]
     module = os.path.splitext(os.path.basename(rd["path"]))[0]
     return "(mkR %s %s (mkM %s %s (mkX %s %s %s) %s %s %d))" % (
@@ -1421,6 +1422,8 @@ class _Capture(logging.Handler):
                 enc.append(["b", a.hex()])
             elif isinstance(a, str):
                 enc.append(["s", a])
+            elif (a is None or isinstance(a, (bool, int, float, list))) and str(a) == repr(a) and isinstance(record.msg, str) and "%r" not in record.msg:
+                enc.append(["o", str(a)])      # an object whose str() and repr() are the same text, shown with %s: the model is handed that text
             else:
                 ok = False
         self.recs.append({"msg": record.msg, "args": enc, "level": record.levelno,
@@ -1441,7 +1444,16 @@ def run_session_impl(case, workdir):
     sink = None
     late = case.get("late")          # None: logging is set up before the channel exists (the usual order)
     debug_at_open = None
+    handle_errors = []
+    orig_handle_error = logging.Handler.handleError
+
+    def counting(self, record):          # handleError is silent when logging.raiseExceptions is False: count the calls themselves
+        handle_errors.append(1)
+        return orig_handle_error(self, record)
+
     with _Quiet() as q:
+        logging.Handler.handleError = counting
+        logging.raiseExceptions = case.get("raise_exceptions", True)        # (_Quiet restores the process-wide value)
         try:
             def basic(level):
                 q.lg.addHandler(cap)
@@ -1477,7 +1489,9 @@ def run_session_impl(case, workdir):
         except Exception as e:  # noqa
             exc = type(e).__name__
             res = []
-        errors = q.errors()
+        finally:
+            logging.Handler.handleError = orig_handle_error
+        errors = max(q.errors(), len(handle_errors))
         logging.getLogger("scrapli.channel").setLevel(logging.NOTSET)
     content = open(logpath, "rb").read().decode("utf-8") if os.path.exists(logpath) else ""
     shutil.rmtree(d, ignore_errors=True)
@@ -1532,7 +1546,7 @@ def oracle_session(case, obs):
     if obs["exc"]:
         return "session raised %s" % obs["exc"]
     if obs["errors"]:
-        return "%d record(s) reported as '--- Logging error ---' on stderr instead of being written" % obs["errors"]
+        return "%d record(s) handed to Handler.handleError ('--- Logging error ---' on stderr when logging.raiseExceptions is on) instead of being written" % obs["errors"]
     want = _segments_from_events(obs["events"])
     red = [o[1] for o in case["ops"] if o[0] == "write" and o[2]]
     try:
@@ -1578,6 +1592,8 @@ def shrink_session(case, obs, why, workdir):
 
 
 SESSION_ALPHABET = [39, 34, 37, 92, 13, 10, 9, 27, 0, 32, 97, 98, 114, 35, 62, 127, 128, 255, 0x5b, 0x6d]
+# what a user types that a log call can trip over: %, %s, %d, %%, %(name)s, braces, backslashes (families of c20_inputs)
+SESSION_TEXTS = [t for fam in ("percent", "%s", "%d", "%%", "%(name)s", "braces", "backslash", "mixed") for t in c20_inputs.FAMILIES[fam]]
 
 
 def gen_session_case(rng, stack):
@@ -1588,10 +1604,16 @@ def gen_session_case(rng, stack):
             for _ in range(rng.choice([1, 2, 2, 3])):
                 chunks.append(bytes(rng.choice(SESSION_ALPHABET) for _ in range(rng.choice([0, 1, 3, 7, 20]))))
                 ops.append(["read"])
-        elif r < 0.85:
-            ops.append(["write", rng.choice(["show run", "it's", "\n", 'say "x"', "100%"]), False])
+        elif r < 0.8:
+            ops.append(["write", rng.choice(["show run", "it's", "\n", 'say "x"', "100%"] + SESSION_TEXTS), False])
+        elif r < 0.9:
+            ops.append(["write", rng.choice(["s3cret", "s3cret", "p%sw", "p%(x)s{}\\"]), True])
         else:
-            ops.append(["write", "s3cret", True])
+            # a command through the public operation: its text is announced in an info message, echoed, answered
+            cmd = rng.choice(SESSION_TEXTS)
+            ops.append(["send_input", cmd])
+            for ph in (cmd.encode(), b"\r\n" + rng.choice([b"", b"100% ok", b"line1\r\nline2 %s"]) + b"\r\nrouter#"):
+                chunks += common.cut(ph, sorted(set(rng.randrange(1, len(ph)) for _ in range(rng.choice([0, 1, 2])))) if len(ph) > 1 else [])
     if rng.random() < 0.3:
         ops.append(["get_prompt"])
         chunks += common.cut(b"\r\nrouter#", sorted(set(rng.randrange(1, 9) for _ in range(rng.choice([0, 1, 2])))))
@@ -1599,7 +1621,8 @@ def gen_session_case(rng, stack):
         chunks.append(b"tail\r\n#")
         ops.append(["read"])
     case = {"stack": stack, "buffered": rng.random() < 0.75, "caller": rng.random() < 0.25, "close": rng.choice(["close", "shutdown"]),
-            "host": rng.choice(["dev1", "", "a" * 30]), "port": rng.choice([22, 0, 65535]), "uid": rng.choice(["", "u1"])}
+            "host": rng.choice(["dev1", "", "a" * 30]), "port": rng.choice([22, 0, 65535]), "uid": rng.choice(["", "u1"]),
+            "raise_exceptions": rng.random() < 0.5}
     if rng.random() < 0.45:
         # logging is switched on AFTER channel.open(): before the first operation, between two operations (also inside a run of
         # reads), or after the last one.  'basic': enable_basic_logging(level="debug") on the open connection, nothing installed
@@ -2211,6 +2234,78 @@ def run(rep):
             rep.broken.append("correspondence session: model differs from implementation")
             rep.notes.append("session disagreement: %s %s" % (json.dumps(scases[ix][0])[:800], json.dumps(scases[ix][1])[:1500]))
 
+    # 3c'. session-inputs : whole logged sessions whose INPUT TEXT is hostile to logging (%, %s, %d, %%, %(name)s, braces, backslashes) in
+    #      every operation kind that announces the user's text (commands, configs, interactive incl. hidden, raw writes), real generic /
+    #      network drivers over the simulated device, logging.raiseExceptions True and False (c20_inputs.py)
+    n_inp = 720 if thorough else 72
+    n_inp_model = 72 if thorough else 8
+    icases, iterms, ifails = [], [], []
+    idist = {"cases": 0, "stacks": {}, "drivers": {}, "raise_exceptions": {}, "buffered": 0, "records": 0, "op_kind_x_family": {}, "hidden_inputs": 0,
+             "operations": 0, "operations_completed": 0, "inputs_with_percent": 0, "inputs_with_brace_or_backslash": 0, "model_cases": 0}
+    for i in range(n_inp):
+        case = c20_inputs.gen_inputs_case(rng, i)
+        obs = c20_inputs.run_inputs_impl(case, rep.workdir)
+        tcase, back = c20_inputs.tokenised(case)
+        tobs = c20_inputs.run_inputs_impl(tcase, rep.workdir)
+        icases.append((case, obs))
+        idist["cases"] += 1
+        for k, v in (("stacks", case["stack"]), ("drivers", case["kind"]), ("raise_exceptions", str(case["raise_exceptions"]))):
+            idist[k][v] = idist[k].get(v, 0) + 1
+        idist["buffered"] += case["buffered"]
+        idist["records"] += len(obs["records"])
+        idist["operations"] += len(case["ops"])
+        idist["operations_completed"] += sum(1 for (n, r), _ in zip(obs["results"][1:], case["ops"]) if r is None)
+        for kind, fam, text, hid in c20_inputs._visible_inputs(case):       # noqa
+            key = "%s x %s" % (kind, fam)
+            idist["op_kind_x_family"][key] = idist["op_kind_x_family"].get(key, 0) + 1
+            idist["hidden_inputs"] += hid
+            idist["inputs_with_percent"] += "%" in text
+            idist["inputs_with_brace_or_backslash"] += any(c in text for c in "{}\\")
+        rep.case(("inp", json.dumps(case, sort_keys=True)), nontrivial=any("%" in t for _, _, t, _ in c20_inputs._visible_inputs(case)))      # noqa
+        why = c20_inputs.oracle_inputs(case, obs, (tcase, back, tobs))
+        if why:
+            ifails.append((len(icases) - 1, why))
+        if len(iterms) < n_inp_model:
+            # the handler model on the records of a SHORT session of the same kind (two of the operations: a whole session is some 150 records
+            # of 100+ characters, too big a term for coqc); the full sessions are decided by the oracle
+            mcase = dict(case, ops=case["ops"][i % 3:i % 3 + 2])
+            mobs = c20_inputs.run_inputs_impl(mcase, rep.workdir)
+            if all(r["ok"] and not (any(a[0] == "o" for a in r["args"]) and "%r" in r["msg"]) for r in mobs["records"]):
+                mc = {"buffered": mcase["buffered"], "append": False, "caller": mcase["caller"], "existing": None,
+                      "recs": [dict(r, kind="captured") for r in mobs["records"]]}
+                iterms.append((len(icases) - 1, log_case_term(mc, dict(mobs, errors=max(mobs["errors"], mobs["handle_error_calls"])), TMASK)))
+                idist["model_records"] = idist.get("model_records", 0) + len(mobs["records"])
+    idist["model_cases"] = len(iterms)
+    rep.sample({"suite": "session-inputs", "case": icases[0][0], "results": icases[0][1]["results"], "file_lines": icases[0][1]["file"].count("\n")})
+    ibad, ilog = common.eval_cases(rep.workdir, "cases_c20_inp", LOG_HEADER, [t for _, t in iterms], "chk", shard=1)
+    rep.coverage["correspondence"]["session-inputs"] = {"cases": len(iterms), "distribution": idist,
+                                                        "model_disagreements": None if ibad is None else len(ibad), "oracle_failures": len(ifails)}
+    seen = set()
+    for ix, why in ifails:
+        case, obs = icases[ix]
+        key = (case["raise_exceptions"], why[:30])
+        if key in seen or len(seen) >= 3:
+            continue
+        seen.add(key)
+        case, obs, why = c20_inputs.shrink_inputs(case, rep.workdir, why)
+        rep.violation("logged session with hostile input text (%s %s driver, %s handler, logging.raiseExceptions = %s; operations %s): %s" % (
+            case["stack"], case["kind"], "buffering" if case["buffered"] else "plain", case["raise_exceptions"], json.dumps([o[:1] + o[2:] for o in case["ops"]])[:300], why),
+                      {"suite": "session-inputs", "case": case,
+                       "observed": {k: obs[k] for k in ("file", "errors", "handle_error_calls", "handle_error_templates", "events", "exc", "results")},
+                       "unformattable_records": [{"template": r["msg"], "args": r["args"], "raised": r["format_raised"]} for r in obs["records"] if r["format_raised"]][:5],
+                       "rerun": "./check C20 --replay <this file>"})
+    if ibad is None:
+        rep.broken.append("correspondence session-inputs (model evaluation failed)")
+        rep.notes.append(ilog)
+    elif ibad:
+        failing = set(ix for ix, _ in ifails)
+        for b in ibad[:3]:
+            ix = iterms[b][0]
+            if ix in failing:
+                continue
+            rep.broken.append("correspondence session-inputs: model differs from implementation")
+            rep.notes.append("session-inputs disagreement: %s" % json.dumps(icases[ix][0])[:1500])
+
     rep.coverage["generated_from"] = common.source_hashes(SOURCES)
     rep.coverage["generated"] = {k: v for k, v in info.items()}
     rep.rule = ("log-seq: record sequences (lazy/eager reads, lazy writes, info, look-alike prefixes, %s/%r/%% templates; extras from "
@@ -2262,10 +2357,22 @@ def run(rep):
                 "between two operations (inside runs of reads too) or after the last — by enable_basic_logging(level='debug') on the open connection "
                 "(nothing installed before; scrapli logger at NOTSET / INFO / WARNING), by logging.getLogger('scrapli').setLevel(DEBUG) or by "
                 "getLogger('scrapli.channel').setLevel(DEBUG) with the file handler installed from the start at INFO .. CRITICAL; the moment is marked in "
-                "the wire record; oracle: the reads / writes in the file are exactly those on the wire from that moment on, in order. non-trivial = (log) >= 2 records with a read, (chan) a sink and a CR or ESC served, "
+                "the wire record; oracle: the reads / writes in the file are exactly those on the wire from that moment on, in order; the writes and the "
+                "send_input commands of these sessions draw their text from the hostile-input families (below), logging.raiseExceptions on / off; "
+                "session-inputs: whole logged sessions (enable_basic_logging at debug, buffering / plain, caller_info on / off) through the real "
+                "GenericDriver / IOSXEDriver (sync and asyncio) over the simulated device, EVERY operation kind that announces the user's text — "
+                "send_command(s), send_config(s), send_interactive and channel.send_inputs_interact (normal and hidden events, expected responses "
+                "with % too), channel.send_input, channel.send_input_and_read (expected_outputs), raw channel.write (redacted or not) — crossed in "
+                "rotation with the input families plain, lone %, %s, %d / %5.2f / %r / %c, %%, %(name)s, braces, backslashes, mixtures (9 kinds x 9 "
+                "families, all hit in 72 cases), logging.raiseExceptions True and False; observers: wire record, the file, a capturing handler that asks "
+                "every emitted record for its message, the calls of Handler.handleError (counted even when raiseExceptions is off), stderr; oracle: no "
+                "record's getMessage() raises, none goes to handleError, reads / writes of the file == wire (hidden as REDACTED, hidden text in no "
+                "message), one file line per emitted record in order (level, read / other; reads coalesced when buffering), and substitution: every "
+                "message that mentions an input in the same session typed with plain tokens is in this session's file with the token replaced by "
+                "the text, in order. non-trivial = (log) >= 2 records with a read, (chan) a sink and a CR or ESC served, "
                 "(driver) a sink, a login in the channel and >= 2 reads, (commandeer) a sink and reads through both objects, (log-multi) >= 2 records with a read, "
                 "(log-mode) a spelling other than 'write' / 'append' on a file with content, (reopen) a sink and reads in a later session, "
-                "(session) >= 2 reads; distinct = the whole case")
+                "(session) >= 2 reads, (session-inputs) an input with a % sign; distinct = the whole case")
     shutil.rmtree(os.path.join(rep.workdir, "tmp"), ignore_errors=True)
 
 
@@ -2394,6 +2501,9 @@ def replay(path):
             print("channel logger enabled for DEBUG right after open():", obs["debug_enabled_at_open"])
         print("file:\n" + obs["file"])
         print("wire:", [(k, bytes.fromhex(c)) for k, c in obs["events"]])
+    elif suite == "session-inputs":
+        obs, why = c20_inputs.run_and_judge(case, wd)
+        print(c20_inputs.describe(case, obs))
     else:
         print("unknown suite %r" % suite)
         return 1
@@ -2448,6 +2558,11 @@ MANIFEST = {
             "the correspondence ties that to the code for records up to 256 KiB. Sessions where logging is switched on after channel.open() "
             "(enable_basic_logging / setLevel(DEBUG) on the scrapli or the channel logger, before / between / after the operations): from that moment "
             "every read and write on the wire is in the file, in order. "
+            "Hostile input text (suite session-inputs + the writes / send_input of the session suite): commands, configs, interactive inputs "
+            "(hidden ones too) and raw writes containing %, %s, %d, %%, %(name)s, braces and backslashes are sent through the real drivers / channels "
+            "with the log file on, logging.raiseExceptions True and False: no emitted record's formatting raises, none reaches handleError, every "
+            "write is in the file byte for byte in its repr, the file has one line per emitted record, and the messages that mention the input are "
+            "those of the same session typed with plain tokens, token for text. "
             "The translator discovers the handler's attribute names from emit / emit_buffered (the prefix the message is tested "
             "against, the cut of the payload, the attributes they write, the f-string assigned to .msg) instead of assuming them.",
     "note": "Proved of the hand-written Gallina models (LogHandler.v, LogFormat.v, ChanLog.v); the models are tied to the code by the correspondence run and the "
@@ -2484,6 +2599,16 @@ MANIFEST = {
             "Late logging: WHICH reads produce a record (logger levels, isEnabledFor, the moment logging is switched on) is outside the Coq models — "
             "the handler model is fed the records the scrapli logger handed to its handlers; that every read after the switch produces one is "
             "oracle-only (wire record from the marked moment on against the parsed file). "
+            "Hostile input text: WHICH records an operation emits and what template / arguments it gives them (the call sites of logger.info in "
+            "send_input, send_input_and_read, send_inputs_interact, write) are outside the Coq models — the handler model (file_log_complete: a record "
+            "whose %-formatting fails goes to handleError once and is not written) is fed the records as emitted; that the library's own records are "
+            "well-formed for EVERY user text is decided by the oracle only (getMessage() of each captured record, handleError call count, one line per "
+            "record, substitution against the plain-token run of the same session). The model is run on the records of SHORT sessions of that suite "
+            "(two operations each, 8 per quick run / 72 thorough; a whole session is ~150 long records, too big a term); non-str arguments whose "
+            "str() == repr() (bool, None, numbers, lists of str) are handed to the model as the text they print with %s. The device of that suite "
+            "is harness/simdevice.SimDevice plus question / answer dialogues; it echoes hidden inputs too, so the 'hidden text in no message' "
+            "check skips the read lines. The substitution oracle compares only the messages that mention an input (what the driver does may "
+            "depend on the text, e.g. privilege detection on a prompt-like echo). "
             "Mode spellings: str.lower / str.strip are modelled on code points with A-Z only (no other character lower-cases to a letter of 'write' / "
             "'append'); the unchanged tree refuses spellings with surrounding blanks, which the oracle allows (refused cleanly) as well as serving them; "
             "non-str modes are outside the typed signature and not generated.",
